@@ -41,6 +41,7 @@ static void common_setup(const char* prop)
         VM.cam[s].exposure_ms = (double)vs_param(s ? "exposure1" : "exposure", 10);
         VM.cam[s].trigger = (int)vs_param("trigger", 0);
         VM.cam[s].fail_get_frame_at = (int)vs_param(s ? "camfail1" : "camfail", -1);
+        if (s == 0) { VM.cam[s].reshape_at = (int)vs_param("reshape_at", -1); VM.cam[s].reshape_mode = (int)vs_param("reshape_mode", 0); VM.cam[s].reshape_w = (uint32_t)vs_param("reshape_w", 1); VM.cam[s].reshape_h = (uint32_t)vs_param("reshape_h", 1); }
         VM.store[s].append_ms = (double)vs_param(s ? "append_ms1" : "append_ms", 0);
         VM.store[s].fail_append_at = (int)vs_param(s ? "storefail1" : "storefail", -1);
     }
@@ -334,10 +335,13 @@ static void c06_run(void)
     const char* prog = vs_param_str("prog", "mm");
     int from = (int)vs_param("from", 0);
     int nacq = (int)strlen(ends);
+    const int fault_first = (int)vs_param("fault_first", -1); // the storage device fails this append of the FIRST acquisition only
     for (int a = 0; a < nacq; ++a) {
         int reg[2];
         begin_acquisition(reg);
         for (int s = 0; s < P_STREAMS; ++s) g_expect_first0[s] = reg[s];
+        VM.store[0].fail_append_at = (a == 0) ? fault_first : -1;
+        if (a == 1 && fault_first >= 0) OKQ(acquire_configure(RT, &PROPS)); // the failed storage device has to be configured again
         OKQ(acquire_start(RT));
         if (g_pending_late) { release_held(g_pending_late, "C06"); g_pending_late = 0; } // the late hand-back of a region held across the previous abort
         int held = 0;
@@ -373,7 +377,7 @@ static void c06_check(void)
 {
     const char* ends = vs_param_str("ends", "ss");
     for (int s = 0; s < P_STREAMS; ++s)
-        for (int a = 0; ends[a]; ++a) check_storage_complete(s, a + 1, (int)PROPS.video[s].max_frame_count, "C06", ends[a] == 'a');
+        for (int a = 0; ends[a]; ++a) check_storage_complete(s, a + 1, (int)PROPS.video[s].max_frame_count, "C06", ends[a] == 'a' || (a == 0 && vs_param("fault_first", -1) >= 0));
     observe_storage(0);
     if (rt->video[0].sink.in.cycle > 0) vs_event(2);
 }
